@@ -577,6 +577,7 @@ type SpecFunc struct {
 	Pkg    string
 	Opaque bool
 	NoInline bool
+	Ordered  bool
 }
 
 type Lemma struct {
@@ -852,6 +853,10 @@ func (cs *Contracts) parseFile(path, pkg string) error {
 				return fail(fmt.Errorf("bad spec header"))
 			}
 			sf := &SpecFunc{Name: strings.TrimSpace(rest[:i]), Pkg: pkg}
+			if strings.HasPrefix(sf.Name, "ordered ") {
+				sf.Ordered = true
+				sf.Name = strings.TrimSpace(sf.Name[8:])
+			}
 			if strings.HasPrefix(sf.Name, "noinline ") {
 				sf.NoInline = true
 				sf.Name = strings.TrimSpace(sf.Name[9:])
